@@ -15,6 +15,7 @@ struct MItem { std::string tag, kid; bool bad; };
 struct Model { std::vector<MItem> items; int set_error = 0; };
 
 static std::string EC_JWK_X, EC_JWK_Y, RSA_JWK_N;
+static std::vector<std::string> ASYM_JWKS;   // good asymmetric JWKs with the placeholder kid "KID"
 static int g_counter = 0;
 
 static std::string oct_jwk(const std::string &tag, const std::string &kid, bool bad) {
@@ -81,6 +82,8 @@ static std::string run_seq(const std::vector<Op> &ops, bool sparse = false) {
     case L_MIXED: { std::string d = "{\"keys\":[" + oct_jwk(tag + "a", tag + "a", false) + "," + oct_jwk(tag + "b", "dup", true) + "," + oct_jwk(tag + "c", tag + "c", false) + "]}";
       if (do_load(set, d, o.a) != set) bad = "load-returned-other-set"; m.items.push_back({tag + "a", tag + "a", false}); m.items.push_back({"kid:dup", "dup", true}); m.items.push_back({tag + "c", tag + "c", false}); break; }
     case L_EC: { std::string d = "{\"kty\":\"EC\",\"crv\":\"P-256\",\"x\":\"" + EC_JWK_X + "\",\"y\":\"" + EC_JWK_Y + "\",\"kid\":\"ec" + tag + "\"}";
+      // every third time another good asymmetric key instead: EC / OKP / RSA private keys, OKP public (each builds and must release its own temporaries)
+      if (o.a % 3 == 2 && !ASYM_JWKS.empty()) { d = ASYM_JWKS[(o.a / 3) % ASYM_JWKS.size()]; size_t p2 = d.find("\"kid\":\"KID\""); if (p2 != std::string::npos) d.replace(p2, 11, "\"kid\":\"ec" + tag + "\""); }
       if (do_load(set, d, o.a) != set) bad = "load-returned-other-set"; m.items.push_back({"kid:ec" + tag, "ec" + tag, false}); break; }
     case L_BADKEY: {   // one member decodes, the next does not: whatever was built for the first must be released with the item
       static const char *shapes[] = {"{\"kty\":\"EC\",\"crv\":\"P-256\",\"x\":\"%X\",\"y\":\"A\",\"kid\":\"%K\"}", "{\"kty\":\"EC\",\"crv\":\"P-256\",\"x\":\"\",\"y\":\"%Y\",\"kid\":\"%K\"}", "{\"kty\":\"RSA\",\"n\":\"%N\",\"e\":\"A\",\"kid\":\"%K\"}",
@@ -168,7 +171,8 @@ static void flush_batch() {
 
 int main(int argc, char **argv) {
   Args a = parse_args(argc, argv); g_self = argv[0]; g_tmp = a.out.empty() ? std::string("/tmp/c16-") + std::to_string(getpid()) : a.out;
-  { KeySpec ec = load_fixture("ec_p256"); EC_JWK_X = b64u_enc(pkey_bn(ec.pkey, OSSL_PKEY_PARAM_EC_PUB_X, 32)); EC_JWK_Y = b64u_enc(pkey_bn(ec.pkey, OSSL_PKEY_PARAM_EC_PUB_Y, 32)); EVP_PKEY_free(ec.pkey); KeySpec rsa = load_fixture("rsa_2048"); RSA_JWK_N = b64u_enc(pkey_bn(rsa.pkey, OSSL_PKEY_PARAM_RSA_N)); EVP_PKEY_free(rsa.pkey); }
+  { KeySpec ec = load_fixture("ec_p256"); EC_JWK_X = b64u_enc(pkey_bn(ec.pkey, OSSL_PKEY_PARAM_EC_PUB_X, 32)); EC_JWK_Y = b64u_enc(pkey_bn(ec.pkey, OSSL_PKEY_PARAM_EC_PUB_Y, 32)); EVP_PKEY_free(ec.pkey); for (auto nm : {std::make_pair("ec_p256", true), std::make_pair("ed25519", true), std::make_pair("ed448", true), std::make_pair("ed25519", false), std::make_pair("rsa_2048", true), std::make_pair("ec_p521", true)}) { KeySpec k = load_fixture(nm.first); JwkOpts o; o.priv = nm.second; o.kid = "KID"; ASYM_JWKS.push_back(jwk_json(k, o)); EVP_PKEY_free(k.pkey); }
+    KeySpec rsa = load_fixture("rsa_2048"); RSA_JWK_N = b64u_enc(pkey_bn(rsa.pkey, OSSL_PKEY_PARAM_RSA_N)); EVP_PKEY_free(rsa.pkey); }
   cur_case() = [] { return CUR ? case_json(*CUR) : std::string("{}"); };
   Stats &st = stats();
   // keys are parsed by the OpenSSL code under either provider, but they are released through the ACTIVE provider: odd workers run under GnuTLS
